@@ -19,3 +19,146 @@ package http
 //@     invariant file == nil
 //@     invariant forall j int :: 0 <= j && j < $i ==> !path.PathEq(pth, t.Files[j].Path)
 //@   props    C20 C02
+
+// ---- Local-only (C19) ----
+// The three entry points of the web interface (the only functions registered
+// with the HTTP mux) call checkLocal FIRST: no other function or method --
+// parsing the form, looking at torrents, writing a byte of response -- is
+// called before checkLocal has answered true (ghost Ghost_local), on every
+// path, for every request.
+//@ func rootHandler
+//@   requires w != nil && r != nil
+//@   ghostvar Ghost_local bool
+//@   atcall   checkLocal :: true :: Ghost_local = $r0
+//@   modifies *
+//@   assertcall [local] !checkLocal :: Ghost_local
+//@   focus    assert:local, pre:fmt.Fprintf
+//@   props    C19
+//@ func torRootHandler
+//@   requires w != nil && r != nil
+//@   atcall   checkLocal :: true :: Ghost_local = $r0
+//@   modifies *
+//@   assertcall [local] !checkLocal :: Ghost_local
+//@   focus    assert:local, pre:fmt.Fprintf
+//@   props    C19
+//@ func torHandler
+//@   requires w != nil && r != nil
+//@   atcall   checkLocal :: true :: Ghost_local = $r0
+//@   modifies *
+//@   assertcall [local] !checkLocal :: Ghost_local
+//@   focus    assert:local, pre:fmt.Fprintf
+//@   props    C19
+
+//@ use net
+// checkLocal: true exactly for a Host header that splits into host:port with
+// the host being the word "localhost" or an IP literal -- never for any other
+// DNS name (DNS-rebinding defence).
+//@ func checkLocal
+//@   requires w != nil && r != nil
+//@   modifies *
+//@   ensures  [local] $r0 == (splitOK(old(r.Host)) && (hostOf(old(r.Host)) == "localhost" || isIPLiteral(hostOf(old(r.Host)))))
+//@   props    C19
+
+// ---- Injection-free (C19) ----
+//@ use html
+//@ spec IsPath(x any) bool
+//@   import "github.com/jech/storrent/path"
+//@   body typeis_[path.Path](x)
+// fmt.Fprintf AS USED BY THE WEB INTERFACE (package-level `use html`): every
+// argument that is a string must be safe; a path.Path (a list of
+// attacker-chosen strings printed raw by %v) must not be passed at all.
+//@ extern fmt.Fprintf
+//@   import "io"
+//@   sig func(w io.Writer, format string, a ...any) (n int, err error)
+//@   requires [escaped] forall i int :: 0 <= i && i < len(a) ==> (typeis_[string](a[i]) ==> safe_(as_[string](a[i]))) && !IsPath(a[i])
+
+//@ func torrentEntry
+//@   requires w != nil && t != nil && ctx != nil
+//@   modifies *
+//@   focus    pre:fmt.Fprintf
+//@   props    C19
+
+// fmt.Sprintf: the result is safe when every string argument is (the format is
+// a literal of the program).
+//@ extern fmt.Sprintf
+//@   sig func(format string, a ...any) (r string)
+//@   ensures  (forall i int :: 0 <= i && i < len(a) ==> (typeis_[string](a[i]) ==> safe_(as_[string](a[i]))) && !IsPath(a[i])) ==> safe_(r)
+
+// Helpers whose results are safe by construction (ASSUMED, simple to audit):
+// numbers formatted with units; path components each passed through
+// url.PathEscape and joined with '/'.
+//@ func approxBytes
+//@   trusted
+//@   ensures  safe_($r0)
+//@ func approxRate
+//@   trusted
+//@   ensures  safe_($r0)
+//@ func pathUrl
+//@   trusted
+//@   ensures  safe_($r0)
+
+// header: r.Host is written into the page (protocol-handler registration).
+// It is the Host header of the user's own browser, which checkLocal has
+// restricted to localhost or an IP literal plus a port: not one of the
+// torrent/tracker/web-seed/peer-controlled strings the property is about.
+//@ func header
+//@   assume   safe_(r.Host)
+//@   modifies *
+//@   focus    pre:fmt.Fprintf
+//@   props    C19
+
+//@ func footer
+//@   modifies *
+//@   focus    pre:fmt.Fprintf
+//@   props    C19
+
+//@ func directory
+//@   modifies *
+//@   focus    pre:fmt.Fprintf
+//@   props    C19
+
+//@ func torrentDir
+//@   modifies *
+//@   focus    pre:fmt.Fprintf
+//@   props    C19
+
+//@ func torrentFile
+//@   modifies *
+//@   focus    pre:fmt.Fprintf
+//@   props    C19
+
+//@ func torrents
+//@   modifies *
+//@   focus    pre:fmt.Fprintf
+//@   props    C19
+
+//@ func peers
+//@   modifies *
+//@   focus    pre:fmt.Fprintf
+//@   props    C19
+
+//@ func hpeer
+//@   modifies *
+//@   focus    pre:fmt.Fprintf
+//@   props    C19
+
+// hknown / hpeer: the `flags` column is assembled in a bytes.Buffer (hknown)
+// or by a long chain of conditional appends (hpeer) from literals and numbers
+// only -- visible in the code, but not followed by the checker: that ONE
+// argument is waived; the others (addresses, client version, ids) are checked.
+//@ func hknown
+//@   waive    pre:pre:fmt.Fprintf.escaped#8 :: flags column: literals and numbers assembled through a bytes.Buffer (not followed)
+//@   modifies *
+//@   focus    pre:fmt.Fprintf
+//@   props    C19
+
+//@ func m3uentry
+//@   assume   safe_(host)
+//@   modifies *
+//@   focus    pre:fmt.Fprintf
+//@   props    C19
+
+//@ func playlist
+//@   modifies *
+//@   focus    pre:fmt.Fprintf
+//@   props    C19
